@@ -15,7 +15,7 @@ META = {
     'required_obs': {'quick': ['code-' + c for c in CODES] + ['uvari-width-1', 'uvari-width-2', 'uvari-width-4',
                                'rejected-out-of-range', 'rejected-non-ascii', 'rejected-too-long', 'cache-collision-pair',
                                'e2e-contract-evals', 'obname-copy>0', 'obname-origin-2byte', 'obname-after-identity-change', 'dtime-utc-year-differs', 'numpy-scalar-zero-pair', 'list-with-unrepresentable-element',
-                               'list-round-trip', 'dtime-fold-pair', 'dtime-naive-after-zone-change', 'dtime-through-attributes', 'dtime-attr-objects-compared']},
+                               'list-round-trip', 'dtime-fold-pair', 'dtime-naive-after-zone-change', 'dtime-through-attributes', 'dtime-attr-objects-compared', 'uvari-numpy-integer']},
     'exhaustive_windows': {'quick': ['UVARI: every value 0..20000 and 2^30-3..2^30+3', 'USHORT/SSHORT: whole domain +-2',
                                      'IDENT lengths 0..260', 'STATUS -2..3'],
                            'thorough': ['UVARI: every value 0..70000', 'UNORM/SNORM whole domain +-2', 'IDENT/ASCII lengths 0..300']},
@@ -122,6 +122,21 @@ def run_case(case):
             judge('UVARI', v, exp, real('UVARI', v), 'w%d-edge' % len(exp))
         for v in [2 ** 30, 2 ** 30 + 1, 2 ** 30 + 3, 2 ** 31, 2 ** 32 - 1, 2 ** 32, 2 ** 40, -1, -128, -2 ** 31]:
             judge('UVARI', v, None, real('UVARI', v), 'out-of-range')
+        # the same numbers as numpy integers (a count or a reference that comes out of a numpy computation): sums inside the
+        # encoder must not wrap in the operand's own width
+        import numpy as np
+        import warnings
+        with warnings.catch_warnings():
+            warnings.simplefilter('ignore')
+            for tname in ('uint8', 'int8', 'uint16', 'int16', 'uint32', 'int32', 'uint64', 'int64'):
+                info = np.iinfo(tname)
+                for v in [0, 1, 127, 128, 200, 16383, 16384, 20000, 60000, 2 ** 30 - 1, 2 ** 30, 2 ** 30 + 5, 2 ** 31 - 1, 2 ** 32 - 1, -1]:
+                    if not info.min <= v <= info.max:
+                        continue
+                    exp = ref_uvari(v) if v >= 0 else None
+                    bump('uvari-numpy-integer')
+                    judge('UVARI', np.dtype(tname).type(v), exp, real('UVARI', np.dtype(tname).type(v)),
+                          f'numpy-{tname}-' + ('out-of-range' if exp is None else 'w%d' % len(exp)))
     elif k == 'int':
         name = case['code']
         code, nb, signed = INT[name]
